@@ -68,10 +68,14 @@ MAXFIN = 3      # every concat finalizer after the first joins the CHARACTERS of
 MAXOUT = 20000
 
 
+def ofs(case):
+    return [case["of"][f] for f in FMTS]
+
+
 def number(case):
     """give every item / post-processing item / finalizer object its identity"""
     nf = 0
-    for d in case["defs"] + [case["bk"], case["of"]]:
+    for d in case["defs"] + [case["bk"]] + ofs(case):
         keep = []
         for f in d["fin"]:
             if nf < MAXFIN:
@@ -85,7 +89,7 @@ def number(case):
                     keep.append(f); nf += 1
             d["fin"] = keep
     u = 1
-    for d in case["defs"] + [case["bk"], case["of"]]:
+    for d in case["defs"] + [case["bk"]] + ofs(case):
         for part in ("items", "post", "fin"):
             for x in d[part]:
                 x["uid"] = u
@@ -93,7 +97,7 @@ def number(case):
     return case
 
 
-def g_base(rng, n=None, tpl=0.25, heavy=False):
+def g_base(rng, n=None, tpl=0.25, heavy=False, fmtsdiff=False):
     n = n or rng.choice([1, 2, 2, 3, 3, 3, 4, 4, 5])
     idents = rng.sample(NAMES, n)
     mode = rng.random()
@@ -140,10 +144,32 @@ def g_base(rng, n=None, tpl=0.25, heavy=False):
     if rng.random() < 0.6:
         defs[0]["items"].insert(0, {"id": "s0", "kind": ["set_state", "index", rng.choice(SVALS)], "cond": None})
     bk = g_def(rng, None, rich=False, tpl=0) if rng.random() < 0.4 else {"items": [], "post": [], "fin": [], "vars": [], "prio": 0, "name": None}
-    of = g_def(rng, None, rich=False, tpl=0) if rng.random() < 0.4 else {"items": [], "post": [], "fin": [], "vars": [], "prio": 0, "name": None}
+    empty = lambda: {"items": [], "post": [], "fin": [], "vars": [], "prio": 0, "name": None}
+    fmt = rng.choice(FMTS)
+    of = {f: empty() for f in FMTS}
+    if fmtsdiff:                          # three different, observable output-format pipelines
+        for k, f in enumerate(FMTS):
+            d = g_def(rng, None, rich=False, tpl=0)
+            d["fin"] = []
+            r = rng.random()
+            if r < 0.5:
+                d["items"].append({"id": "o" + f, "kind": ["add_cond", "o", f], "cond": None})
+            elif r < 0.8:
+                d["post"].append({"id": "o" + f, "kind": ["embed", "", "~" + f], "cond": None})
+            else:
+                d["vars"] = [["x", f]]
+                d["post"].append({"id": "o" + f, "kind": ["tpl_var", "x"], "cond": None})
+            of[f] = d
+        if rng.random() < 0.3:
+            of[rng.choice(FMTS)]["fin"].append(g_fin(rng))
+    else:
+        if rng.random() < 0.4:
+            of[fmt] = g_def(rng, None, rich=False, tpl=0)
+        if rng.random() < 0.15:
+            of[rng.choice(FMTS)] = g_def(rng, None, rich=False, tpl=0)
     nr = rng.choice([1, 1, 2])
     rules = [{"f": rng.choice(FIELDS), "v": rng.choice(VALUES), "two": rng.random() < 0.25} for _ in range(nr)]
-    return {"fmt": rng.choice(FMTS), "defs": defs, "tab": tab, "bk": bk, "of": of, "rules": rules, "prog": []}
+    return {"fmt": fmt, "defs": defs, "tab": tab, "bk": bk, "of": of, "rules": rules, "prog": []}
 
 
 def bracketings(seq):
@@ -195,7 +221,7 @@ def max_fins(c):
     ent = {}
     for k, e in [x for x in c["tab"] if x[1][0] == "file"] + [x for x in c["tab"] if x[1][0] != "file"]:
         ent[k] = fins[e[1]] if e[0] == "obj" else max(len(d["fin"]) for d in e[1]) if e[0] == "seq" else len(e[1]["fin"])
-    cls = len(c["bk"]["fin"]) + len(c["of"]["fin"])
+    cls = len(c["bk"]["fin"]) + max(len(d["fin"]) for d in ofs(c))
     worst = 0
 
     def tf(t):
@@ -212,8 +238,11 @@ def max_fins(c):
 
 
 def with_prog(base, prog):
+    """operations without an explicit output format get the format of the base case"""
     c = copy.deepcopy(base)
-    c["prog"] = prog
+    f = c["fmt"]
+    c["prog"] = [list(o) + [f] if (o[0] in ("init", "convert") and len(o) == 3) or (o[0] == "run" and len(o) == 2) else list(o)
+                 for o in prog]
     return c
 
 
@@ -326,9 +355,44 @@ def gen_hist(tier, rng):
             out.append(with_prog(base, [["tree", [0, 1]], ["tree", [n, 0]], ["convert", False, n + 1]]))
             out.append(with_prog(base, [["tree", [0, 1]], ["tree", [1, 0]], ["convert", False, n + 1]]))
             out.append(with_prog(base, [["tree", [0, 1]], ["tree", [1, 0]], ["convert", False, n]]))
+    # --- several conversions on ONE backend object: the combined pipeline is composed anew, for the requested
+    #     format and the current user pipeline, by every convert() call; convert_rule() keeps what is there
+    for bi in range(14 if quick else 150):
+        base = number(g_base(rng, n=rng.choice([2, 2, 3]), tpl=0.1, fmtsdiff=True))
+        n = len(base["defs"])
+        comp = ["tree", rng.choice(bracketings(list(range(n - 1))))]      # user pipeline: operands 0..n-2 -> register n
+        ext = n - 1                                                        # operand kept aside
+        for f1 in FMTS:                                                    # every ordered pair of formats
+            for f2 in FMTS:
+                out.append(with_prog(base, [comp, ["convert", False, n, f1], ["convert", False, n, f2]]))
+        f1, f2, f3 = rng.choice(FMTS), rng.choice(FMTS), rng.choice(FMTS)
+        g1 = rng.choice([f for f in FMTS if f != f1])
+        for prog in [
+            [comp, ["convert", False, n, f1], ["convert", False, ext, f1]],                 # user pipeline swapped
+            [comp, ["convert", False, n, f1], ["convert", False, ext, g1]],                 # ... and the format too
+            [comp, ["convert", False, n, f1], ["convert", False, None, f1]],                # ... removed
+            [comp, ["convert", False, None, f1], ["convert", False, n, f1]],                # ... added
+            [comp, ["convert", False, n, f1], ["tree", [n, ext]], ["convert", False, n + 1, f2]],   # ... extended
+            [comp, ["convert", False, n, f1], ["convert", False, n, g1], ["convert", False, n, f1]],
+            [comp, ["convert", False, n, f1], ["convert", False, ext, f2], ["convert", False, n, f3]],
+            [comp, ["convert", False, n, f1], ["run", False, f1]],                          # convert() then convert_rule()
+            [comp, ["convert", False, n, f1], ["convert", False, ext, g1], ["run", False, g1]],
+            [comp, ["run", False, f1], ["convert", False, n, f1]],                          # convert_rule() first: initialises without user pipeline
+            [comp, ["run", False, f1], ["convert", False, n, g1]],
+            [comp, ["run", False, f1], ["convert", False, n, g1], ["run", False, g1]],
+            [comp, ["init", False, n, f1], ["convert", False, n, g1]],
+            [comp, ["init", False, n, f1], ["convert", False, ext, f1]],
+            [comp, ["convert", False, n, f1], ["init", False, ext, g1], ["run", False, g1]],
+            [comp, ["convert", False, n, f1], ["run", False, g1]],                          # D30 class: convert_rule with another format
+            [comp, ["run", False, f1], ["run", False, g1]],                                 # D30 class
+            [comp, ["convert", False, n, f1], ["convert", True, n, f2], ["convert", False, n, f3]],   # two backend objects
+            [comp, ["convert", False, n, f1], ["convert", True, ext, g1], ["convert", False, ext, g1], ["convert", True, n, f1]],
+        ]:
+            out.append(with_prog(base, prog))
     # --- random histories
-    for _ in range(250 if quick else 3000):
-        base = number(g_base(rng, tpl=0.2))
+    for ri in range(250 if quick else 3000):
+        base = number(g_base(rng, tpl=0.2, fmtsdiff=(ri % 3 == 0)))
+        rf = lambda: ([rng.choice(FMTS)] if rng.random() < 0.5 else [])
         n = len(base["defs"])
         specs = [e[0] for e in base["tab"]]
         m = len(specs)
@@ -345,16 +409,17 @@ def gen_hist(tier, rng):
                              else rng.sample(specs, rng.randint(1, m))]); nregs += 1
             elif r < 0.7:
                 b = rng.random() < 0.5
-                prog.append(["init", b, rng.choice([None] + list(range(nregs)))]); inited.add(b)
-            elif r < 0.85 and inited:
-                prog.append(["run", rng.choice(sorted(inited))])
+                prog.append(["init", b, rng.choice([None] + list(range(nregs)))] + rf()); inited.add(b)
+            elif r < 0.85:
+                b = rng.choice(sorted(inited)) if inited and rng.random() < 0.8 else rng.random() < 0.5
+                prog.append(["run", b] + rf()); inited.add(b)
             else:
                 b = rng.random() < 0.5
-                prog.append(["convert", b, rng.choice([None] + list(range(nregs)))]); inited.add(b)
+                prog.append(["convert", b, rng.choice([None] + list(range(nregs)))] + rf()); inited.add(b)
         if not inited or rng.random() < 0.5:
-            prog.append(["convert", False, rng.choice([None] + list(range(nregs)))])
+            prog.append(["convert", False, rng.choice([None] + list(range(nregs)))] + rf())
         else:
-            prog.append(["run", rng.choice(sorted(inited))])
+            prog.append(["run", rng.choice(sorted(inited))] + rf())
         out.append(with_prog(base, prog))
     # every concat finalizer after the first multiplies the output length: keep histories whose pipelines stay small
     return [c for c in out if max_fins(c) <= MAXFIN + 1]
@@ -405,9 +470,9 @@ def c_op(o):
     if o[0] == "tree": return f"OpTree {c_tree(o[1])}"
     if o[0] == "resolve": return f"OpResolve {clist(cstr(s) for s in o[1])}"
     if o[0] == "sum": return f"OpSum {clist(cnat(i) for i in o[1])}"
-    if o[0] == "init": return f"OpInit {cbool(o[1])} {c_u(o[2])}"
-    if o[0] == "run": return f"OpRun {cbool(o[1])}"
-    if o[0] == "convert": return f"OpConvert {cbool(o[1])} {c_u(o[2])}"
+    if o[0] == "init": return f"OpInit {cbool(o[1])} {c_u(o[2])} {c_fmt(o[3])}"
+    if o[0] == "run": return f"OpRun {cbool(o[1])} {c_fmt(o[2])}"
+    if o[0] == "convert": return f"OpConvert {cbool(o[1])} {c_u(o[2])} {c_fmt(o[3])}"
     raise ValueError(o)
 
 
@@ -446,7 +511,9 @@ def hist_to_coq(c, r):
         if e[0] == "seq": return "RSeq " + clist(c_def(d) for d in e[1])
         return "RCall " + c_def(e[1])
     tab = clist(f"({cstr(k)}, {c_ent(e)})" for k, e in ents)
-    return (f"(({c_fmt(c['fmt'])}, {clist(c_def(d) for d in c['defs'])}, {tab}, {c_def(c['bk'])}, {c_def(c['of'])}, "
+    of = c["of"]
+    return (f"(({clist(c_def(d) for d in c['defs'])}, {tab}, {c_def(c['bk'])}, "
+            f"({c_def(of['default'])}, {c_def(of['test'])}, {c_def(of['state'])}), "
             f"{rules}, {clist(c_op(o) for o in c['prog'])}, {c_result(r)}) : hist_case)")
 
 
@@ -463,7 +530,8 @@ def stale_runs(c):
     C14_behaviour_partial)."""
     n = len(c["defs"])
     leaves = [({i} if observable(c["defs"][i]) else set()) for i in range(n)]
-    cls = ({"bk"} if observable(c["bk"]) else set()) | ({"of"} if observable(c["of"]) else set())
+    def cls(f):
+        return ({"bk"} if observable(c["bk"]) else set()) | ({("of", f)} if observable(c["of"][f]) else set())
     ident = {}          # identifier -> operand index (None: callable / file, a fresh pipeline every time)
     for k, e in [x for x in c["tab"] if x[1][0] == "file"] + [x for x in c["tab"] if x[1][0] != "file"]:
         # callable / file / callable with memory: fresh pipelines, i.e. fresh item objects at every resolution
@@ -502,11 +570,16 @@ def stale_runs(c):
                     touch(ls)
                 leaves.append(ls)
             elif o[0] in ("init", "convert"):
-                ls = set(cls) | (leaves[o[2]] if o[2] is not None else set())
+                ls = cls(o[3]) | (leaves[o[2]] if o[2] is not None else set())
                 touch(ls, but=o[1])
                 last[o[1]] = ls
                 stale[o[1]] = False
             elif o[0] == "run":
+                if o[1] not in last:          # convert_rule on a backend object without pipeline: initialises it (no user pipeline)
+                    ls = cls(o[2])
+                    touch(ls, but=o[1])
+                    last[o[1]] = ls
+                    stale[o[1]] = False
                 if stale.get(o[1]):
                     return True
     except (KeyError, IndexError):
@@ -514,14 +587,35 @@ def stale_runs(c):
     return False
 
 
+def fmt_mismatch_runs(c):
+    """source-level recogniser of the input class of D30 (as far as C14 sees it): some convert_rule()
+    call asks for a format other than the one the backend object's pipeline was built for by its last
+    init_processing_pipeline()/convert()/first convert_rule(). Never true of convert() calls."""
+    built = {}
+    for o in c["prog"]:
+        if o[0] in ("init", "convert"):
+            built[o[1]] = o[3]
+        elif o[0] == "run":
+            if o[1] not in built:
+                built[o[1]] = o[2]
+            elif built[o[1]] != o[2]:
+                return True
+    return False
+
+
 def known_hist(c, r):
-    return "D18-items-reowned-by-later-addition" if stale_runs(c) else None
+    if stale_runs(c):
+        return "D18-items-reowned-by-later-addition"
+    if fmt_mismatch_runs(c):
+        return "D30-C14-convert_rule-keeps-pipeline-of-other-format"
+    return None
 
 
 def stratum(c, r):
     kinds = "+".join(sorted({o[0] for o in c["prog"]}))
     res = "exc:" + r["exc"] if isinstance(r, dict) and "exc" in r else "ok"
-    return f"{kinds}|{res}|{'stale' if stale_runs(c) else 'owned'}"
+    fm = {o[-1] for o in c["prog"] if o[0] in ("init", "convert", "run")}
+    return f"{kinds}|{res}|{'stale' if stale_runs(c) else 'owned'}|{'fmtmismatch' if fmt_mismatch_runs(c) else ('fmts%d' % len(fm))}"
 
 
 def mutate_hist(c, rng):
@@ -532,9 +626,11 @@ def mutate_hist(c, rng):
                 out.append(with_prog(c, c["prog"][:k] + [["resolve", rng.sample(o[1], len(o[1]))]] + c["prog"][k + 1:]))
         if o[0] == "tree" and not isinstance(o[1], int):
             out.append(with_prog(c, c["prog"][:k] + [["tree", [o[1][1], o[1][0]]]] + c["prog"][k + 1:]))
-    for f in FMTS:
-        if f != c["fmt"]:
-            d = copy.deepcopy(c); d["fmt"] = f; out.append(d)
+    for k, o in enumerate(c["prog"]):
+        if o[0] in ("init", "convert", "run"):
+            for f in FMTS:
+                if f != o[-1]:
+                    d = copy.deepcopy(c); d["prog"][k][-1] = f; out.append(d)
     for di in range(len(c["defs"])):
         for part in ("items", "post", "fin"):
             for k in range(len(c["defs"][di][part])):
@@ -558,6 +654,10 @@ PROPERTY = Property(
          "operands fresh or used once (earlier conversion on another backend instance / earlier sum), resolving the same objects / callables / "
          "files twice, conversions without re-initialisation after a later addition (D18 class), p + p, sum([p, p]), duplicate/unknown resolver "
          "names, the pipeline's name used as spec, empty lists, stage-heavy pipelines (>= 2 post-processing items each, several finalizers), "
+         "sequences of conversions on ONE backend object (two backend objects of one class live for the whole history): every ordered pair "
+         "of output formats with three distinct observable output-format pipelines, user pipeline swapped / removed / added / extended "
+         "between convert() calls, convert() then convert_rule() and the reverse, convert_rule() on a fresh backend object, init then "
+         "convert with another format, convert_rule() with another format (D30 class); format and user pipeline chosen per call; "
          "random histories of <= 7 calls; 1-2 rules, one- and two-condition rules, formats default/test/state. Observed: Backend.convert() or "
          "convert_rule()+finalize() output, per-rule pipeline.applied and state, applied_ids, vars. non-trivial = the history contains a "
          "sum/resolve of >= 2 pipelines and >= 2 pipelines/definitions are non-empty; distinct by case hash",
